@@ -108,23 +108,51 @@ theorem change_min_ada (P : Params) (a : ChangeArgs) (cs : List Output) (h : cal
         rw [← he]; simp only; omega
     · intro o ho; right; exact changeLoop_min_ada P a.addr _ _ cs h o ho
 
-/-- **the change outputs `_add_change_and_fee` ADDS hold their minimum ADA**: when there is no output to merge the
-change into (merge_change off, or on without an output at the change address) the final output list is the requested
-outputs followed by change outputs each holding at least its minimum ADA -/
-theorem final_change_min_ada (P : Params) (outs fo : List Output) (a : ChangeArgs) (mc : Bool)
-    (h : finalOutputs P outs a mc = .ok fo) (hn : mergeIndex outs a mc = none) :
+/-- **the change outputs `_add_change_and_fee` ADDS hold their minimum ADA**: the final output list is either the
+requested outputs with the single change merged into the output found at the change address, or the requested outputs
+followed by change outputs each holding at least its minimum ADA — also when `merge_change` is set and the change
+comes out split over several outputs -/
+theorem final_added_min_ada (P : Params) (outs fo : List Output) (a : ChangeArgs) (mc : Bool)
+    (h : finalOutputs P outs a mc = .ok fo) :
+    (∃ (i : Nat) (c : Output), mergeIndex outs a mc = some i ∧ fo = addAt c.amount i outs) ∨
     ∃ cs, fo = outs ++ cs ∧ ∀ o ∈ cs, (o.amount.ma = [] ∧ minAda P a.addr o.amount ≤ o.amount.coin) ∨
               minAda P a.addr ⟨0, o.amount.ma⟩ ≤ o.amount.coin := by
   unfold finalOutputs at h
   split at h
   · simp at h
-  · rename_i cs hcalc
+  · rename_i cs hfin
     simp only [Except.ok.injEq] at h
     subst h
-    refine ⟨cs, ?_, ?_⟩
-    · rw [hn]; unfold mergeChanges; rfl
-    · have hr : (finalArgs outs a mc).respect = true := by simp [finalArgs, hn]
-      exact change_min_ada P (finalArgs outs a mc) cs hcalc hr
+    obtain ⟨r, hcalc, hnone, hlen⟩ := Builder.finalChanges_calc P outs cs a mc hfin
+    have hmin : r = true → ∀ o ∈ cs, (o.amount.ma = [] ∧ minAda P a.addr o.amount ≤ o.amount.coin) ∨
+              minAda P a.addr ⟨0, o.amount.ma⟩ ≤ o.amount.coin := by
+      intro hr
+      have := change_min_ada P (withRespect (finalArgs outs a mc) r) cs hcalc (by simp [withRespect, hr])
+      simpa [withRespect, finalArgs] using this
+    cases hm : mergeIndex outs a mc with
+    | none =>
+      right
+      exact ⟨cs, by unfold mergeChanges; rfl, hmin (hnone hm)⟩
+    | some i =>
+      by_cases hl : cs.length = 1
+      · left
+        match cs, hl with
+        | [c], _ => exact ⟨i, c, rfl, by unfold mergeChanges; rfl⟩
+      · right
+        refine ⟨cs, ?_, hmin (hlen hl)⟩
+        unfold mergeChanges
+        match cs, hl with
+        | [], _ => rfl
+        | _ :: _ :: _, _ => rfl
+
+/-- special case: no output to merge into (merge_change off, or on without an output at the change address) -/
+theorem final_change_min_ada (P : Params) (outs fo : List Output) (a : ChangeArgs) (mc : Bool)
+    (h : finalOutputs P outs a mc = .ok fo) (hn : mergeIndex outs a mc = none) :
+    ∃ cs, fo = outs ++ cs ∧ ∀ o ∈ cs, (o.amount.ma = [] ∧ minAda P a.addr o.amount ≤ o.amount.coin) ∨
+              minAda P a.addr ⟨0, o.amount.ma⟩ ≤ o.amount.coin := by
+  rcases final_added_min_ada P outs fo a mc h with ⟨i, c, hi, _⟩ | h'
+  · rw [hn] at hi; cases hi
+  · exact h'
 
 /-- with merge_change off there is never a merge target -/
 theorem no_merge_target_when_off (outs : List Output) (a : ChangeArgs) : mergeIndex outs a false = none := by
@@ -323,3 +351,4 @@ end Pyc.C08
 #print axioms Pyc.C08.body_refuses_iff
 #print axioms Pyc.C08.final_change_min_ada
 #print axioms Pyc.C08.no_merge_target_when_off
+#print axioms Pyc.C08.final_added_min_ada
